@@ -36,7 +36,7 @@ var p *gocanon.Pkg
 
 var tFilter = gocanon.Template(`{ l0 := make([]gsmsg.GraphSyncResponse, 0, len(a0))
 	for _, l1 := range a0 { l2, l3 := rm.` + table + `[l1.RequestID()]
-	if !l3 || l2.«field» != «other» { continue }
+	if !l3 || «lhs» != «rhs» { continue }
 	l0 = append(l0, l1) } return l0 }`)
 
 var tExtLoop = gocanon.Template(`{ l0 := make([]gsmsg.GraphSyncResponse, 0, len(a0))
@@ -190,6 +190,7 @@ type desc struct {
 	ownerStruct, owner                      string
 	entry                                   string
 	cancelName, terminateName               string
+	filterLhs, filterRhs                    string
 	names                                   map[string]string // stage -> Go method name (documentation only)
 }
 
@@ -272,12 +273,19 @@ func main() {
 			fd := method(sel.Sel.Name, s.Pos())
 			c := p.Canon(fd)
 			if m := gocanon.Match(tFilter, c); m != nil {
-				if m["field"] != d.owner {
-					p.Die(fd.Pos(), "%s compares field %q, but the peer a request was sent to is stored in %q", fd.Name.Name, m["field"], d.owner)
+				// operands of the comparison: the entry's peer field (l2.<owner>) or the filter's peer
+				// parameter (a1); the terms go into the generated file, the model's filter is defined from them
+				term := func(e string) string {
+					switch e {
+					case "l2." + d.owner:
+						return ".entryPeer"
+					case "a1":
+						return ".sender"
+					}
+					p.Die(fd.Pos(), "%s compares %q: neither the entry's peer field %q nor the filter's peer parameter", fd.Name.Name, e, d.owner)
+					return ""
 				}
-				if m["other"] != "a1" {
-					p.Die(fd.Pos(), "%s compares the entry's peer with %q instead of its peer parameter", fd.Name.Name, m["other"])
-				}
+				d.filterLhs, d.filterRhs = term(m["lhs"]), term(m["rhs"])
 				d.stages = append(d.stages, ".filterForPeer")
 				d.names["filterForPeer"] = fd.Name.Name
 			} else if m := gocanon.Match(tExtLoop, c); m != nil {
@@ -350,6 +358,9 @@ func main() {
 	if d.hookPeer == "" { // no response-hook stage at all: the descriptor is unused
 		d.hookPeer, d.updateTo, d.cancelTo = ".sender", ".sender", ".owner"
 	}
+	if d.filterLhs == "" { // no filter stage at all: the term is unused
+		d.filterLhs, d.filterRhs = ".entryPeer", ".sender"
+	}
 	if d.cancelState != "Running" {
 		p.Die(entry.Pos(), "%s tests state %s, the model knows `!= graphsync.Running`", d.cancelName, d.cancelState)
 	}
@@ -394,6 +405,11 @@ open GS.ReqMgr
     produced by the previous list-producing stage (linear data flow, checked by the translator). -/
 def stages : List StageOp := [%s]
 
+/-- the comparison inside the peer filter, as written in the source: a response is dropped if its
+    request is not in the table or lhs != rhs (sender = the peer argument the entry point passes on,
+    entryPeer = field '%s' of the entry found under the response's request ID) -/
+def filterCond : FilterCond := { lhs := %s, rhs := %s }
+
 /-- who receives the messages sent by the response-hook stage -/
 def extDesc : ExtDesc := { hookPeer := %s, updateTo := %s, cancelTo := %s }
 
@@ -406,7 +422,7 @@ def cancelDesc : CancelDesc := { keepFirstError := true, terminateUnlessRunning 
 def termDesc : TermDesc := { failureCancels := true, terminalSetsOffline := true }
 
 end GS.Generated.ReqPipeline
-`, d.entry, fmtNames(d), d.cancelName, d.terminateName, d.ownerStruct, d.owner, strings.Join(d.stages, ", "), d.hookPeer, d.updateTo, d.cancelTo)
+`, d.entry, fmtNames(d), d.cancelName, d.terminateName, d.ownerStruct, d.owner, strings.Join(d.stages, ", "), d.owner, d.filterLhs, d.filterRhs, d.hookPeer, d.updateTo, d.cancelTo)
 }
 
 func fmtNames(d *desc) string {
